@@ -47,7 +47,7 @@ func TestVerifSim(t *testing.T) {
 		Stub: []string{"disk: pebble vfs.NewCrashableMem behind a counting/cloning gate (crash = CrashClone with 100%/0%/~50% of unsynced data)",
 			"clients (tape-driven, one operation or one cross-channel group at a time)", "clock (synctest fake clock)"},
 		Rule: "One run = one synctest bubble with one real message engine on a simulated disk, 1-5 channels of three flavours (typed ChannelLog API, compatibility ChannelStore API, exact-proposal API), " +
-			"a tape-driven history (C07/C08: 20-80 operations; C09: 2-7 steps) of appends, applies, truncations, trims, checkpoints, replacements, cleanups, cross-channel client groups, lease cycles and database reopens; one run in four has no reopen / lease reclamation / cache eviction. " +
+			"a tape-driven history (C07/C08: 20-80 operations; C09: 0-16 un-enumerated prelude operations ending with a directed retention adopt+trim on some channels, then 2-7 steps whose every disk call is a crash point, biased to truncations and suffix replacements of logs that carry retention state) of appends, applies, truncations, trims, checkpoints, replacements, cleanups, cross-channel client groups, lease cycles and database reopens; one run in four has no reopen / lease reclamation / cache eviction. " +
 			"Non-trivial: C07 = a full read-back succeeded and (at least 8 successful mutations including a removal and a full read-back after a reopen or lease reclamation, or a fault-free run with at least 15 mutations); " +
 			"C08 = at least one duplicate was rejected and at least one fresh append was accepted after it; " +
 			"C09 = at least one acknowledged mutation and at least 10 crash images per crash mode (process kill, power loss, torn) examined (a crash-free control run counts with 8 mutations and a full read-back).",
@@ -103,6 +103,12 @@ type cfg struct {
 	CrashOpen  bool
 	TornPct    int
 	CheckEvery int
+	// C09: operations applied (without crash enumeration) before the
+	// enumerated steps, so that those steps start from a store that already
+	// holds rows, watermarks, retention state and proposal chains; and how
+	// strongly the enumerated steps prefer mutations that shrink the log.
+	Prelude    int
+	ShrinkBias int
 }
 
 func drawStoreCfg(r *simkit.Run) cfg {
@@ -176,6 +182,13 @@ func drawStoreCfg(r *simkit.Run) cfg {
 		// must fall inside the 2-7 steps whose disk calls are enumerated
 		c.MemTable = []int{32 << 10, 16 << 10, 256 << 10}[tp.Intn(3)]
 		c.BigPayload = 1 + tp.Intn(2)*3
+		if c.Crash {
+			// multi-step preconditions (retention trim or adopted boundary, then a
+			// truncation / suffix replacement, then the crash) do not fit into 2-7
+			// random steps: build them up first, enumerate afterwards
+			c.Prelude = []int{0, 6, 10, 16}[tp.Intn(4)]
+			c.ShrinkBias = tp.Intn(3)
+		}
 	}
 	if c.NoFaults {
 		c.Warm = 8192
@@ -218,6 +231,10 @@ type world struct {
 	bgErrs      []string
 
 	tainted bool
+	prelude bool // C09: building up state before the enumerated steps
+	// directed retention arguments (touchRetention)
+	forceThrough     uint64
+	forceMaxMessages int
 
 	// statistics for the non-triviality rule and probes
 	mutations    int
@@ -393,7 +410,8 @@ func runStore(t *testing.T, r *simkit.Run) {
 	r.Config = map[string]any{"channels": c.Channels, "flavours": fl, "ops": c.Ops, "memtable": c.MemTable, "l0": c.L0, "cache_kb": c.CacheKB,
 		"window_us": c.Window.Microseconds(), "max_req": c.MaxReq, "shards": c.Shards, "warm": c.Warm, "nofaults": c.NoFaults,
 		"collide": c.Collide, "alphabet": c.Alphabet, "saturate": c.Saturate, "empty_typed": c.EmptyTyped, "trunc_slack": c.TruncSlack,
-		"crash": c.Crash, "crash_open": c.CrashOpen, "torn_pct": c.TornPct, "group_w": c.GroupW, "big": c.BigPayload}
+		"crash": c.Crash, "crash_open": c.CrashOpen, "torn_pct": c.TornPct, "group_w": c.GroupW, "big": c.BigPayload,
+		"prelude": c.Prelude, "shrink_bias": c.ShrinkBias}
 	r.Logf("cfg %v", simkitConfigLine(r.Config))
 	w := &world{t: t, r: r, c: c, ctx: context.Background(), disk: newSimDisk(), liveIDs: map[uint64]idLoc{}, nextID: 1000, crashSeen: map[string]struct{}{}}
 	w.disk.tornPct = c.TornPct
@@ -441,8 +459,47 @@ func (w *world) run() {
 	}
 	simkit.Wait()
 	if w.c.Crash {
+		w.checkCrashPoints() // crash points of the first open (CrashOpen runs)
+		w.disk.cloning = false
+		w.prelude = true
+		for op := 0; op < w.c.Prelude && !w.stop(); op++ {
+			w.mu.Lock()
+			w.step++
+			w.mu.Unlock()
+			w.r.Steps++
+			w.oneStep()
+			simkit.Wait()
+			if es := w.takeBgErrs(); len(es) > 0 {
+				w.r.Infra("pebble background error on the primary: %v", es)
+				return
+			}
+		}
+		if w.c.Prelude > 0 {
+			for _, c := range w.chans {
+				if !w.stop() && c.fl != flTyped && w.r.Tape.Intn(3) != 0 {
+					w.touchRetention(c)
+					simkit.Wait()
+				}
+			}
+		}
+		w.prelude = false
+		if w.stop() {
+			return
+		}
+		if w.c.Prelude > 0 {
+			w.fullCheck("prelude")
+			if w.stop() {
+				return
+			}
+			for _, c := range w.chans {
+				st := c.st()
+				if st.hasRet && st.lastRowSeq() > st.ret.PhysicalRetentionThroughSeq {
+					w.r.Probe("prelude.retention_with_live_tail")
+				}
+			}
+		}
+		w.r.Logf("crash enumeration starts after step %d", w.step)
 		w.disk.cloning = true
-		w.checkCrashPoints()
 	}
 	for op := 0; op < w.c.Ops && !w.stop(); op++ {
 		w.mu.Lock()
